@@ -200,8 +200,11 @@ func checkSigCode(code int, r *ev.Rec) error {
 			return err
 		}
 	} else {
-		if els, err := newELS(code, 32, 64); err == nil {
-			return fmt.Errorf("signing type %d unknown to the tables but NewEncryptedLeaseSet accepts it (%d-byte key stored)", code, len(els.BlindedPublicKey()))
+		// (no offline block here: NewOfflineSignature itself refuses an unknown destination type)
+		for _, n := range []int{32, 64, 128} {
+			if els, err := encrypted_leaseset.NewEncryptedLeaseSet(uint16(code), model.Fill(n, 3), 5, 9, 0, nil, model.Fill(61, 4), stded.PrivateKey(elsTransient.Priv)); err == nil {
+				return fmt.Errorf("signing type %d unknown to the tables but NewEncryptedLeaseSet accepts it (%d-byte key stored)", code, len(els.BlindedPublicKey()))
+			}
 		}
 		if _, _, err := signature.ReadSignature(make([]byte, 600), code); err == nil {
 			return fmt.Errorf("signing type %d unknown to the tables but ReadSignature accepts it", code)
